@@ -33,6 +33,9 @@ def remove_unused_self_cls(source: str) -> str:
             if not arguments:
                 continue
             first_arg_name = arguments[0].arg
+            if any(core.walk(classdef, ast.Name(id=funcdef.name))):
+                # The class body passes the function on by its bare name, to whoever calls it
+                continue
 
             first_arg_accesses = set()
             static_accesses = set()
